@@ -517,7 +517,8 @@ class World(object):
             for st in (then or ()):
                 if st.get("when", "ok") == ("ok" if ok else "err") or st.get("when") == "any":
                     world._nested_step(st)
-            return None
+            # an application callback may hand a value on to the next callback of its chain
+            return world.reqs[rid].get("cbret") if ok else None
         d.addCallbacks(lambda v: fire(True, v), lambda f: fire(False, f))
 
     def _api(self, conn, name, args, kwargs, rid, then):
@@ -537,11 +538,15 @@ class World(object):
         def call():
             st0 = type(getattr(proto, "state", None)).__name__
             self.reqs[rid]["st0"] = st0
-            before = snap() if self.reqs[rid].get("tag") == "bad" else None
+            bad = self.reqs[rid].get("tag") == "bad"
+            before = snap() if (bad or name in ("connect", "publish", "subscribe", "unsubscribe", "disconnect")) else None
             try:
                 m = getattr(proto, name)
                 res = m(*args, **kwargs)
-                if before is not None:
+                # a call that was refused (invalid arguments, or not allowed in this state) must leave
+                # the protocol's scalar attributes as they were
+                refused = bad or (isinstance(res, Deferred) and res.called and isinstance(res.result, failure.Failure))
+                if before is not None and refused:
                     after = snap()
                     ch = sorted(k for k in set(before) | set(after) if before.get(k) != after.get(k))
                     if ch:
@@ -592,7 +597,7 @@ class World(object):
             self.rid += 1
             rid = self.rid
             self.reqs[rid] = {"rid": rid, "m": name, "a": st.get("a", []), "k": st.get("k", {}),
-                              "addr": addr, "ci": conn.idx, "tag": st.get("tag")}
+                              "addr": addr, "ci": conn.idx, "tag": st.get("tag"), "cbret": st.get("cbret")}
             info = {"rid": rid, "m": name, "a": st.get("a", []), "k": st.get("k", {}),
                     "tag": st.get("tag"), "nested": bool(nested)}
             if nested:
